@@ -11,7 +11,9 @@
 //	reader    a paged read positioned inside chunks that a TRUNCATE removes: uncached (must continue at the first
 //	          remaining event) and server-held cursor (finding F26)
 //	writer    a writer appends to a partition while TRUNCATE runs: nothing but whole oldest chunks may disappear
-//	sizerace  (hook) a write confirmed between truncate's Size() read and its chunk loop: uint64 wrap of the MINSIZE guard
+//	hull      unit: the chunk time hull the time index keeps (chkInfo creation + update) vs the Lean hull model vs "covers every write"
+//	sizerace  (hook) a write confirmed right after truncate's snapshot of the sizes (regression of the fixed finding F43)
+//	droprace  (hook) a write into a NEW chunk between truncate's snapshot and deleteJournal's exclusive lock: the partition must stay
 package main
 
 import (
@@ -1101,7 +1103,7 @@ func judgeSys(secName string, sec *vh.Section, c sysCase, r sysResult, answers [
 					switch {
 					case phase2:
 						failLater("size-clause-global", what+" removed by the MAXDBSIZE pass although the partition is not above MAXSIZE and the chunk is not older than BEFORE", a.layout(), b.layout(), matched, eq, "F32")
-					case st.Before != nil && newest == *st.Before && (st.MaxDB == nil || (eq && k2 < n1)):
+					case st.Before != nil && newest == *st.Before && ch.MaxTs == *st.Before && (st.MaxDB == nil || (eq && k2 < n1)):
 						failLater("removed-not-older", what+" removed by BEFORE although its newest event is exactly t", a.layout(), b.layout(), matched, eq, "F21")
 					default:
 						failLater("removed-without-rule", what+" removed; neither above MAXSIZE nor older than BEFORE", a.layout(), b.layout(), matched, eq, "")
